@@ -619,3 +619,10 @@ CORPUS += [
     V("C01", "mtvrp-backhaul-cap-polarity", R + "mtvrp/env.py", ') | (~exceeds_cap_backhaul & (td["demand_backhaul"] > 0))', ') | (exceeds_cap_backhaul & (td["demand_backhaul"] > 0))', "C01.b"),
     V("C01", "op-prize-decreases", R + "op/env.py", 'current_total_prize = td["current_total_prize"] + gather_by_index(', 'current_total_prize = td["current_total_prize"] - gather_by_index(', "C01.h"),
 ]
+
+CORPUS += [
+    V("C06", "mtvrp-sanity-assert-reversed", R + "mtvrp/env.py", 'assert torch.all(td["service_time"] >= 0.0)', 'assert torch.all(td["service_time"] <= 0.0)', "C06.g"),
+    V("C06", "cvrptw-return-sanity-reversed", R + "cvrptw/env.py", '            <= td["time_windows"][..., 0, 1, None]  # depot deadline of each instance', '            >= td["time_windows"][..., 0, 1, None]  # depot deadline of each instance', "C06.g"),
+    V("C06", "cvrp-invented-assert", R + "cvrp/env.py", '        d = demand_with_depot.gather(1, actions)\n', '        d = demand_with_depot.gather(1, actions)\n        assert (td["demand"] <= 0.5 * td["vehicle_capacity"]).all()\n', "C06.g"),
+    V("C06", "eq-cvrptw-window-sanity-nonstrict", R + "cvrptw/env.py", 'td["time_windows"][..., 0] < td["time_windows"][..., 1]', 'td["time_windows"][..., 0] <= td["time_windows"][..., 1]', None),
+]
